@@ -33,7 +33,10 @@ LEVEL_TEXT = ("Coq theorems over an executable model of the haplotype-block code
               "scaling, the six latent functions; all four copies of the haplotype-matrix builder) are regenerated on every run into "
               "Gen/C18_Kernel.v; the code composed from them (g_*) is proved equal to the hand model and the apportionment, cover-once/"
               "monotone, run-length, conservation (four builders) and OHV-problem theorems are restated about the generated code itself, so a "
-              "changed expression breaks Props/C18.vo independently of the sampled cases.")
+              "changed expression breaks Props/C18.vo independently of the sampled cases. "
+              "Every designated parent counts: the OHV over a parent tuple is defined, at least the OHV over any tuple drawn from the same "
+              "individuals (in particular its first and last parent only), equal for tuples designating the same set, and strictly larger in a "
+              "population whose middle parent alone holds the best block (Proofs/C18_Parents.v).")
 LEVEL_NOTE = ("trusted: Coq kernel + vm_compute, PrimFloat primitives + FloatAxioms specs, classical reals via Flocq (binary64 order only); "
               "numpy.empty is instrumented by the driver to return NaN/-1 filled arrays so that never-written entries are observable (modelled "
               "as None); block values, OHV/OPV sums are compared as exact rationals on dyadic grids (BLAS/numpy summation order not modelled); "
@@ -56,6 +59,12 @@ RULE = ("case = (kind helpers|haplomat|ohv{Subset,Real,Integer,Binary via the se
         "in-place input changes; _calc_ohvmat with its own ploidy argument; fixed cases: one block more than markers in every builder, 280 "
         "and 140 blocks (labels beyond int8/uint8), 1081 crosses (> the factory's chunk of 1024); the entry-point table ENTRY/SKIPPED/PARAMS is "
         "compared with the modules by introspection on every run (fail closed); "
+        "PLANTED populations, systematically over nparent 1..4 x unique_parents both ways x the four OHV encodings (and selections of 1..4 "
+        "individuals, rotated / reversed / with a repeated member, for OPV and the genotype builder with 1..4 founders): all copies share a base "
+        "haplotype and each individual alone carries the favourable allele of one marker of 'its' block, so the first, every MIDDLE and the last "
+        "parent each alone hold the best block somewhere; _calc_ohvmat on the same matrix with chunk sizes None,1,2,3,5,7,1024; the predicate "
+        "enumerates ALL doubled haploids assembled block by block from the phases of the designated parents (from genotypes and effects alone) "
+        "on small cases: none exceeds the OHV / -OPV and one attains it; random OHV cases also draw nparent from 1..4; "
         "non-trivial = >= 3 markers, >= 2 blocks requested, >= 2 labels used; distinct by SHA-256 of the case")
 TRUSTED = ["numpy.empty instrumented (driver only) so that unwritten entries are visible as NaN / -1",
            "binary64 sums of 0/1 genotypes times effects k/2^8 (|k/2^8| <= 16) are exact: compared as exact rationals",
@@ -302,7 +311,7 @@ ENTRY = {   # module -> {function or Class.member: how it is exercised}
     "pybrops.breed.prot.sel.prob.OptimalHaploidValueSelectionProblem": {
         "OptimalHaploidValueSelectionProblemMixin.nlatent": "kind ohv", "OptimalHaploidValueSelectionProblemMixin.ohvmat": "getter every ohv case, setter in the lifecycle block",
         "OptimalHaploidValueSelectionProblemMixin._calc_haplomat": "kind ohv (direct call)", "OptimalHaploidValueSelectionProblemMixin._calc_xmap": "kind ohv (protocol and factory)",
-        "OptimalHaploidValueSelectionProblemMixin._calc_ohvmat": "kind ohv: factory (mem=1024) and direct call with mem in {None,1,2,3,1024} and its own ploidy argument",
+        "OptimalHaploidValueSelectionProblemMixin._calc_ohvmat": "kind ohv: factory (mem=1024) and direct call with mem in {None,1,2,3,1024} and its own ploidy argument; planted cases: every chunk size of MEMS, nparent 1..4",
         **{"OptimalHaploidValue%sSelectionProblem.%s" % (c, f): "kind ohv, cls %s" % c for c in ("Subset", "Real", "Integer", "Binary")
            for f in ("__init__", "latentfn", "from_pgmat_gpmod")}},
     "pybrops.breed.prot.sel.prob.OptimalPopulationValueSelectionProblem": {
@@ -1062,7 +1071,9 @@ def describe(case, out):
          "raised": isinstance(nb, dict) or isinstance(out.get("hmat"), dict),
          "styles": "+".join(sorted(set(case.get("styles", [])))),
          "pscale": case.get("pscale", 0), "uscale": case.get("uscale", 0), "route": case.get("route", "-"),
-         "session": "session" in case, "phases": len(case["geno"]) if "geno" in case else 0}
+         "session": "session" in case, "phases": len(case["geno"]) if "geno" in case else 0,
+         "planted": "planted" in case, "nparent": case.get("nparent", "-"), "uniq": case.get("uniq", "-"),
+         "nselected": "-" if case["kind"] not in ("opv", "gb") else "/".join(str(k) for k in sorted({len(x) for x in case["x"]}))}
     if isinstance(nb, list) and "hbin" in out and "nblk" not in case:
         st, sp = _bounds(case["clen"]); tie = False
         for a, b, n in zip(st, sp, nb):
